@@ -1,6 +1,7 @@
 import XdistModel.Sched.Load
 import XdistProofs.Contract.Spec
 import XdistProofs.Contract.Invariants
+import XdistProofs.Contract.Wire
 import XdistProofs.Lemmas.Except
 /-!
   `LoadScheduling` refines the contract: every method is a sequence of contract acts on the
@@ -691,5 +692,285 @@ theorem runOps_inv {s s' : State τ} {e e' : Env} {g g' : Ghost} {ops : List (SO
       simp only [hst] at h
       obtain ⟨hf1, hb1⟩ := step_bal hf hb hst
       exact ih hf1 hb1 (step_started hf hs hst) h
+
+/-! ### wire well-formedness and duplicate-freeness along scheduler calls (C16) -/
+
+theorem outAct_isOut {g : Bool} {a : Act} (h : OutAct g a) : IsOut a := by
+  cases a <;> simp_all [OutAct, IsOut]
+
+theorem outAct_guarded {a : Act} (h : OutAct true a) : Guarded a := by
+  cases a <;> simp_all [OutAct, Guarded]
+
+theorem sendTests_flags {s s' : State τ} {e e' : Env} {n : Nat} {num : Int}
+    (h : sendTests s e n num = .ok (s', e')) : e'.flags = e.flags ∧ nodes s' = nodes s := by
+  unfold sendTests at h
+  obtain ⟨k, hk1, hk2⟩ := slice_take_drop s.pending num
+  simp only [hk1, hk2] at h
+  by_cases hemp : (s.pending.take k).isEmpty = true
+  · simp [hemp] at h; obtain ⟨rfl, rfl⟩ := h; exact ⟨rfl, rfl⟩
+  · simp only [hemp] at h
+    cases hb : s.node2pending.get n with
+    | error err => simp [hb, bind, Except.bind] at h
+    | ok book =>
+      simp only [hb, bind, Except.bind] at h
+      unfold Env.sendRun Env.send at h
+      by_cases hbr : (e.flags.get n).broken = true
+      · simp [hbr] at h
+      · simp [hbr] at h
+        obtain ⟨rfl, rfl⟩ := h
+        refine ⟨rfl, ?_⟩
+        simp only [nodes]
+        exact AList.keys_set_of_mem _ _ _ (by simp [AList.get_eq_ok.1 hb])
+
+theorem sendEach_ref_g {s s' : State τ} {e e' : Env} {num : Int} {ns : List Nat}
+    (hg : ∀ n ∈ ns, e.flags.shuttingDown n = false)
+    (h : sendEach s e num ns = .ok (s', e')) : Ref true s e s' e' := by
+  induction ns generalizing s e with
+  | nil => simp [sendEach] at h; obtain ⟨rfl, rfl⟩ := h; exact Ref.refl _ _ _
+  | cons n t ih =>
+    simp only [sendEach, bind, Except.bind] at h
+    cases h1 : sendTests s e n num with
+    | error err => simp [h1] at h
+    | ok p =>
+      obtain ⟨s1, e1⟩ := p
+      simp only [h1] at h
+      have hf := (sendTests_flags h1).1
+      exact (sendTests_ref true (fun _ => hg n (by simp)) h1).trans
+        (ih (fun m hm => by rw [hf]; exact hg m (by simp [hm])) h)
+
+theorem roundRobin_ref_g {ns : List Nat} {s s' : State τ} {e e' : Env} {k i : Nat}
+    (hg : ∀ n ∈ ns, e.flags.shuttingDown n = false)
+    (h : roundRobin ns s e k i = .ok (s', e')) : Ref true s e s' e' := by
+  induction k generalizing s e i with
+  | zero => simp [roundRobin] at h; obtain ⟨rfl, rfl⟩ := h; exact Ref.refl _ _ _
+  | succ k ih =>
+    simp only [roundRobin] at h
+    cases hn : ns[i % ns.length]? with
+    | none => simp [hn] at h
+    | some n =>
+      simp only [hn, bind, Except.bind] at h
+      cases h1 : sendTests s e n 1 with
+      | error err => simp [h1] at h
+      | ok p =>
+        obtain ⟨s1, e1⟩ := p
+        simp only [h1] at h
+        have hmem : n ∈ ns := List.mem_of_getElem? hn
+        have hf := (sendTests_flags h1).1
+        exact (sendTests_ref true (fun _ => hg n hmem) h1).trans
+          (ih (fun m hm => by rw [hf]; exact hg m hm) h)
+
+/-- when no registered node is shutting down, the initial distribution consists of guarded acts only -/
+theorem initialSend_ref_g {s s' : State τ} {e e' : Env} {n : Nat} {msc : Int}
+    (hg : ∀ m ∈ nodes s, e.flags.shuttingDown m = false)
+    (h : initialSend s e n msc = .ok (s', e')) : Ref true s e s' e' := by
+  unfold initialSend at h
+  obtain ⟨⟨s3, e3⟩, hsend, h⟩ := bind_ok.1 h
+  have hr3 : Ref true s e s3 e3 := by
+    unfold initialDistribute at hsend
+    dsimp only at hsend
+    split at hsend
+    · exact roundRobin_ref_g hg hsend
+    · split at hsend
+      · simp at hsend
+      · exact sendEach_ref_g hg hsend
+  have hfin : Ref true s3 e3 s' e' := by
+    simp only at h
+    split at h
+    · simp at h; obtain ⟨rfl, rfl⟩ := h; exact shutdownAll_ref _ _ _ _
+    · simp at h; obtain ⟨rfl, rfl⟩ := h; exact Ref.refl _ _ _
+  exact hr3.trans hfin
+
+/-- All acts of one scheduler call, provided the first `schedule()` finds no registered node shutting down. -/
+theorem step_acts {s s' : State τ} {e e' : Env} {op : SOp τ} {ret : Option τ}
+    (hf : Fresh s)
+    (hclean : op = .schedule → s.collection = none → ∀ m ∈ nodes s, e.flags.shuttingDown m = false)
+    (h : step s e op = .ok (s', e', ret)) :
+    ∃ acts, run (view s) e acts = some (view s', e') ∧ (∀ a ∈ acts, Guarded a) := by
+  cases op with
+  | addNode n =>
+    simp only [step] at h
+    obtain ⟨s1, h1, h2⟩ := map_ok.1 h
+    simp at h2; obtain ⟨rfl, rfl, rfl⟩ := h2
+    obtain ⟨ha, _⟩ := addNode_ref (e := e) h1
+    exact ⟨[.register n], by simp [run, ha], by simp [Guarded]⟩
+  | addNodeCollection n c =>
+    simp only [step] at h
+    obtain ⟨s1, h1, h2⟩ := map_ok.1 h
+    simp at h2; obtain ⟨rfl, rfl, rfl⟩ := h2
+    obtain ⟨hv, _⟩ := addNodeCollection_view h1
+    exact ⟨[], by simp [run, hv], by simp⟩
+  | schedule =>
+    simp only [step] at h
+    obtain ⟨⟨s1, e1⟩, h1, h2⟩ := map_ok.1 h
+    simp at h2; obtain ⟨rfl, rfl, rfl⟩ := h2
+    unfold schedule at h1
+    split at h1
+    · simp at h1
+    · cases hc : s.collection with
+      | some col0 =>
+        simp only [hc] at h1
+        obtain ⟨⟨acts, r, p⟩, _⟩ := checkAll_ref h1
+        exact ⟨acts, r, fun a ha => outAct_guarded (p a ha)⟩
+      | none =>
+        simp only [hc] at h1
+        cases hreg : s.node2collection with
+        | nil => simp [hreg] at h1
+        | cons pr rest =>
+          obtain ⟨first, col⟩ := pr
+          simp only [hreg] at h1
+          have hcl := hclean rfl hc
+          unfold scheduleFirst at h1
+          by_cases hd : (collectionDiffs first col rest).isEmpty = true
+          · have hdn : collectionDiffs first col rest = [] := List.isEmpty_iff.1 hd
+            simp only [hdn, List.append_nil] at h1
+            simp only [List.isEmpty_nil, Bool.not_true, Bool.false_eq_true, if_false] at h1
+            obtain ⟨hp0, hb0⟩ : s.pending = [] ∧ (AList.values s.node2pending).flatten = [] := by
+              have := hf hc
+              simpa [View.all, view] using this
+            have hstart : apply (view s) e (.start col.length) =
+                some (⟨List.range col.length, s.node2pending, none⟩, e) := by
+              simp [apply, view, View.all, hp0, hb0]
+            by_cases hce : col.isEmpty = true
+            · simp only [hce, if_true] at h1
+              simp at h1
+              obtain ⟨rfl, rfl⟩ := h1
+              refine ⟨[.start col.length], ?_, by simp [Guarded]⟩
+              simp only [run, hstart]; rfl
+            · simp only [hce] at h1
+              obtain ⟨⟨acts, r, p⟩, _⟩ := initialSend_ref_g (by simpa [nodes] using hcl) h1
+              refine ⟨.start col.length :: acts, ?_, ?_⟩
+              · simp only [run, hstart]; exact r
+              · intro a ha
+                rcases List.mem_cons.1 ha with rfl | ha
+                · simp [Guarded]
+                · exact outAct_guarded (p a ha)
+          · simp [hd] at h1
+            obtain ⟨rfl, rfl⟩ := h1
+            refine ⟨reportActs first col rest, run_reports _ _ _ _ _, ?_⟩
+            intro a ha
+            unfold reportActs at ha
+            obtain ⟨p, _, rfl⟩ := List.mem_map.1 ha
+            simp [Guarded]
+  | markComplete n i slow =>
+    simp only [step] at h
+    obtain ⟨⟨s1, e1⟩, h1, h2⟩ := map_ok.1 h
+    simp at h2; obtain ⟨rfl, rfl, rfl⟩ := h2
+    obtain ⟨acts, r, p, _⟩ := markComplete_ref h1
+    refine ⟨_, r, ?_⟩
+    intro a ha
+    rcases List.mem_cons.1 ha with rfl | ha
+    · simp [Guarded]
+    · exact outAct_guarded (p a ha)
+  | markPending t =>
+    simp only [step] at h
+    obtain ⟨⟨s1, e1⟩, h1, h2⟩ := map_ok.1 h
+    simp at h2; obtain ⟨rfl, rfl, rfl⟩ := h2
+    obtain ⟨col, idx, acts, hc, hi, r, p, _⟩ := markPending_ref h1
+    refine ⟨_, r, ?_⟩
+    intro a ha
+    rcases List.mem_cons.1 ha with rfl | ha
+    · simp [Guarded]
+    · exact outAct_guarded (p a ha)
+  | removePending n is => simp [step] at h
+  | removeNode n =>
+    simp only [step] at h
+    obtain ⟨book, acts, hl, r, p, _, _⟩ := removeNode_ref h
+    refine ⟨_, r, ?_⟩
+    intro a ha
+    rcases List.mem_cons.1 ha with rfl | ha
+    · simp [Guarded]
+    · exact outAct_guarded (p a ha)
+
+/-- **Wire theorem for `LoadScheduling`** (one call): at most one shutdown per node and nothing behind it. -/
+theorem step_wire {s s' : State τ} {e e' : Env} {op : SOp τ} {ret : Option τ}
+    (hf : Fresh s)
+    (hclean : op = .schedule → s.collection = none → ∀ m ∈ nodes s, e.flags.shuttingDown m = false)
+    (h1 : NoAfter e.outs) (h2 : SentSync e)
+    (h : step s e op = .ok (s', e', ret)) : NoAfter e'.outs ∧ SentSync e' := by
+  obtain ⟨acts, r, p⟩ := step_acts hf hclean h
+  exact run_wire p h1 h2 r
+
+/-- size of the agreed collection (0 before agreement) -/
+def total (s : State τ) : Nat := match s.collection with | some col => col.length | none => 0
+
+/-- **No index is outstanding twice, and every outstanding index is a valid position** — one scheduler call.
+    The only environment obligation: a plugin re-queues (`mark_test_pending`) a test that is not outstanding
+    (the crashed one it was just handed). -/
+theorem step_nodup_bounded {s s' : State τ} {e e' : Env} {op : SOp τ} {ret : Option τ}
+    (hf : Fresh s) (hn : (view s).all.Nodup) (hb : Bounded (total s) (view s))
+    (hreq : ∀ t col idx, op = .markPending t → s.collection = some col → PyList.index col t = .ok idx →
+              idx ∉ (view s).all)
+    (h : step s e op = .ok (s', e', ret)) :
+    (view s').all.Nodup ∧ Bounded (total s') (view s') := by
+  cases op with
+  | addNode n =>
+    simp only [step] at h
+    obtain ⟨s1, h1, h2⟩ := map_ok.1 h
+    simp at h2; obtain ⟨rfl, rfl, rfl⟩ := h2
+    obtain ⟨ha, st⟩ := addNode_ref (e := e) h1
+    have ht : total s1 = total s := by simp [total, st.2.2.1]
+    rw [ht]
+    exact ⟨nodup_step hn (by simp [Legal]) (by intro i hi; simp at hi) ha,
+      bounded_step hb (by simp [Legal]) (by intro i hi; simp at hi) (by intro t ht; simp at ht) ha⟩
+  | addNodeCollection n c =>
+    simp only [step] at h
+    obtain ⟨s1, h1, h2⟩ := map_ok.1 h
+    simp at h2; obtain ⟨rfl, rfl, rfl⟩ := h2
+    obtain ⟨hv, hc, _, _⟩ := addNodeCollection_view h1
+    have ht : total s1 = total s := by simp [total, hc]
+    rw [ht, hv]; exact ⟨hn, hb⟩
+  | schedule =>
+    simp only [step] at h
+    obtain ⟨⟨s1, e1⟩, h1, h2⟩ := map_ok.1 h
+    simp at h2; obtain ⟨rfl, rfl, rfl⟩ := h2
+    cases schedule_shape hf h1 with
+    | again hsome r =>
+      obtain ⟨⟨acts, hr, p⟩, st⟩ := r
+      have ht : total s1 = total s := by simp [total, st.2.2.1]
+      rw [ht]
+      exact ⟨nodup_out_run hn (fun a ha => outAct_isOut (p a ha)) hr,
+        bounded_out_run hb (fun a ha => outAct_isOut (p a ha)) hr⟩
+    | mismatch first col rest hreg hne hs he => subst hs; exact ⟨hn, hb⟩
+    | first first col rest hcn hreg hall hcol acts r p hst =>
+      have ht : total s1 = col.length := by simp [total, hcol]
+      rw [ht]
+      have hb0 : Bounded col.length (view s) := by
+        intro i hi
+        have := hf hcn
+        rw [this] at hi; simp at hi
+      exact ⟨nodup_head_out hn (by simp [Legal]) (by intro i hi; simp at hi) (fun a ha => outAct_isOut (p a ha)) r,
+        bounded_head_out hb0 (by simp [Legal]) (by intro i hi; simp at hi)
+          (by intro t ht; simp at ht; exact ht.symm) (fun a ha => outAct_isOut (p a ha)) r⟩
+  | markComplete n i slow =>
+    simp only [step] at h
+    obtain ⟨⟨s1, e1⟩, h1, h2⟩ := map_ok.1 h
+    simp at h2; obtain ⟨rfl, rfl, rfl⟩ := h2
+    obtain ⟨acts, r, p, st⟩ := markComplete_ref h1
+    have ht : total s1 = total s := by simp [total, st.2.2.1]
+    rw [ht]
+    exact ⟨nodup_head_out hn (by simp [Legal]) (by intro i hi; simp at hi) (fun a ha => outAct_isOut (p a ha)) r,
+      bounded_head_out hb (by simp [Legal]) (by intro i hi; simp at hi) (by intro t ht; simp at ht)
+        (fun a ha => outAct_isOut (p a ha)) r⟩
+  | markPending t =>
+    simp only [step] at h
+    obtain ⟨⟨s1, e1⟩, h1, h2⟩ := map_ok.1 h
+    simp at h2; obtain ⟨rfl, rfl, rfl⟩ := h2
+    obtain ⟨col, idx, acts, hc, hi, r, p, st⟩ := markPending_ref h1
+    have ht : total s1 = total s := by simp [total, st.2.2.1]
+    rw [ht]
+    have hlt : idx < total s := by simp [total, hc]; exact index_lt_of_ok hi
+    exact ⟨nodup_head_out hn (by simp [Legal])
+        (by intro i hi'; simp at hi'; subst hi'; exact hreq t col idx rfl hc hi) (fun a ha => outAct_isOut (p a ha)) r,
+      bounded_head_out hb (by simp [Legal]) (by intro i hi'; simp at hi'; subst hi'; exact hlt)
+        (by intro t ht; simp at ht) (fun a ha => outAct_isOut (p a ha)) r⟩
+  | removePending n is => simp [step] at h
+  | removeNode n =>
+    simp only [step] at h
+    obtain ⟨book, acts, hl, r, p, st, _⟩ := removeNode_ref h
+    have ht : total s' = total s := by simp [total, st.2.2.1]
+    rw [ht]
+    exact ⟨nodup_head_out hn (by simp [Legal]) (by intro i hi; simp at hi) (fun a ha => outAct_isOut (p a ha)) r,
+      bounded_head_out hb (by simp [Legal]) (by intro i hi; simp at hi) (by intro t ht; simp at ht)
+        (fun a ha => outAct_isOut (p a ha)) r⟩
 
 end Xdist.Load
